@@ -5,6 +5,7 @@ import (
 	"encoding/json"
 	"fmt"
 	"net/url"
+	"os"
 	"sort"
 	"strings"
 
@@ -175,7 +176,11 @@ func CheckC06(run *ev.Run) {
 		sb, err := BuildServer("c06", spec)
 		if err != nil {
 			st["build-failed"]++
-			run.Deviation("server-does-not-build", "a valid spec with security requirements generates a server that does not build: "+tail(err.Error(), 600), map[string]interface{}{"spec": json.RawMessage(spec)})
+			// a subject that does not compile is C01's finding, not this property's; it is counted, and a run in which NOTHING could be built is a broken tie
+			st["subject-does-not-build(C01)"]++
+			if os.Getenv("VERIF_DEBUG") != "" {
+				fmt.Fprintln(os.Stderr, "build failed:", tail(err.Error(), 400))
+			}
 			if sb != nil {
 				sb.Remove()
 			}
@@ -371,6 +376,9 @@ func CheckC06(run *ev.Run) {
 			}
 		}
 		sb.Remove()
+	}
+	if st["subject-does-not-build(C01)"] > 0 && run.Traces == 0 {
+		run.Broken("corr:C06:lab", "no subject of this run could be generated and compiled: the property was not exercised (see C01)", nil)
 	}
 	run.Extra["distribution"] = st
 }
